@@ -70,6 +70,9 @@ func (f *Unintern) Call(s *slip.Scope, args slip.List, depth int) (result slip.O
 	if p == &slip.KeywordPkg && so[0] != ':' {
 		so = slip.Symbol(":") + so
 	}
+	if vv := p.GetVarVal(string(so)); vv != nil && vv.Pkg != nil && vv.Pkg != p {
+		return nil // inherited, not present in the package
+	}
 	if p.Remove(string(so)) {
 		return slip.True
 	}
